@@ -32,14 +32,15 @@ Proof. exact source_flagged_iff. Qed.
 Print Assumptions C02_source_flagged_iff.
 
 (* A pull never overwrites an existing destination file that has not first been verified corrupt: the task runs only
-   when the group's recorded state is corrupt, or nothing is recorded AND the search found no file on disk; a file
-   found on disk is marked suspect (to be verified) instead. *)
+   when the copy on the receiving node itself is recorded corrupt, or no copy of the group is recorded healthy or suspect AND
+   the search found no file on disk; a file found on disk is marked suspect (to be verified) instead --- also when another
+   node of the group holds a corrupt copy (the pre-repair code overwrote it then: F-C02c). *)
 Theorem C02_no_blind_overwrite : forall gs sa ss sr fod gate ns t o p, chain gs sa ss sr fod gate ns t o = CRan p ->
-  gs = HX \/ (gs = HN /\ fod = false).
+  (gs = HX /\ ns = HX) \/ ((gs = HN \/ gs = HX) /\ fod = false).
 Proof. exact no_blind_overwrite. Qed.
 Print Assumptions C02_no_blind_overwrite.
-Theorem C02_stray_file_checked_first : forall sa ss sr gate ns t o, chain HN sa ss sr true gate ns t o <> CCancelled ->
-  chain HN sa ss sr true gate ns t o = CSkipped \/ chain HN sa ss sr true gate ns t o = CMarkedSuspect.
+Theorem C02_stray_file_checked_first : forall gs sa ss sr gate ns t o, (gs = HN \/ gs = HX) -> ns <> HX -> chain gs sa ss sr true gate ns t o <> CCancelled ->
+  chain gs sa ss sr true gate ns t o = CSkipped \/ chain gs sa ss sr true gate ns t o = CMarkedSuspect.
 Proof. exact stray_file_is_checked_first. Qed.
 Print Assumptions C02_stray_file_checked_first.
 Theorem C02_pull_preconditions : forall gs sa ss sr fod gate ns t o p, chain gs sa ss sr fod gate ns t o = CRan p ->
